@@ -6,13 +6,16 @@ import (
 	"encoding/json"
 	"fmt"
 	"math/rand"
+	"strings"
 
 	"github.com/csgura/fp"
 	"github.com/csgura/fp/as"
 	"github.com/csgura/fp/hash"
 	"github.com/csgura/fp/immutable"
 	"github.com/csgura/fp/iterator"
+	"github.com/csgura/fp/lazy"
 	"github.com/csgura/fp/list"
+	"github.com/csgura/fp/monoid"
 	"github.com/csgura/fp/mutable"
 	"github.com/csgura/fp/option"
 	"github.com/csgura/fp/ord"
@@ -548,6 +551,10 @@ func c20Run(out *Out, c IterCase) {
 				out.Ev("Count", "n", n)
 				return
 			}
+			if strings.Contains(c.Whole, "Fold") && c.Whole != "Fold" {
+				foldFamily(out, c.Whole, itL, len(c.Src)+len(c.Calls)+len(c.Pipe))
+				return
+			}
 			out.Ev("Whole", "op", c.Whole, "out", res)
 		}()
 	}
@@ -621,7 +628,116 @@ var ctorsOrdered = []string{"IteratorOfSeq", "FromSeq", "FromSlice", "Of", "seq.
 	"FromOption", "IteratorOfOption", "option.Iterator", "try.Iterator", "FromPtr", "Range", "RangeClosed"}
 var ctorsUnordered = []string{"hamt.Map", "hamt.Keys", "hamt.Values", "hamt.Set", "gomap", "UnsafeGoMap", "mutable.Map", "mutable.Set",
 	"IteratorOfGoMap", "IteratorOfGoSet", "zeroMap"}
-var wholes = []string{"", "", "ToSeq", "iterator.ToSeq", "ToSlice", "seq.Collect", "ToList", "All", "Foreach", "Fold", "NextOption"}
+var wholes = []string{"", "", "ToSeq", "iterator.ToSeq", "ToSlice", "seq.Collect", "ToList", "All", "Foreach", "Fold", "NextOption",
+	"iterator.FoldTry", "iterator.FoldOption", "iterator.FoldError", "iterator.FoldRight",
+	"list.Fold", "list.FoldLeft", "list.FoldTry", "list.FoldOption", "list.FoldError", "list.FoldRight", "list.FoldMap",
+	"seq.Fold", "seq.FoldTry", "seq.FoldOption", "seq.FoldError", "seq.FoldRight", "seq.FoldMap"}
+
+// the Fold family of iterator / list / seq: the step function fails on the first element equal to stop (never: a value no element has);
+// the elements folded before that and whether the fold reported the failure are logged
+func foldFamily(out *Out, op string, it fp.Iterator[int], key int) {
+	const never = 1 << 20 // no element has this value
+	stop := []int{never, never, 0, 1, 2, 3, -2, 4}[key%8]
+	acc := []int{}
+	failed := false
+	errStop := fmt.Errorf("stop")
+	stepTry := func(b []int, a int) fp.Try[[]int] {
+		if a == stop {
+			return fp.Failure[[]int](errStop)
+		}
+		return fp.Success(append(b[:len(b):len(b)], a))
+	}
+	stepOpt := func(b []int, a int) fp.Option[[]int] {
+		if a == stop {
+			return fp.None[[]int]()
+		}
+		return fp.Some(append(b[:len(b):len(b)], a))
+	}
+	stepErr := func(a int) error {
+		if a == stop {
+			return errStop
+		}
+		acc = append(acc, a)
+		return nil
+	}
+	plain := func(b []int, a int) []int { return append(b[:len(b):len(b)], a) }
+	right := func(a int, b lazy.Eval[[]int]) lazy.Eval[[]int] {
+		return b.Map(func(t []int) []int { return append([]int{a}, t...) })
+	}
+	sliceMonoid := monoid.MergeSlice[int]()
+	one := func(a int) []int { return []int{a} }
+	fromTry := func(t fp.Try[[]int]) {
+		if t.IsSuccess() {
+			acc = t.Get()
+		} else {
+			failed = true
+		}
+	}
+	fromOpt := func(t fp.Option[[]int]) {
+		if t.IsDefined() {
+			acc = t.Get()
+		} else {
+			failed = true
+		}
+	}
+	partial := false // a failing fold reports no accumulator: only the failure flag is comparable
+	switch op {
+	case "iterator.FoldTry":
+		fromTry(iterator.FoldTry(it, []int{}, stepTry))
+		partial = true
+	case "iterator.FoldOption":
+		fromOpt(iterator.FoldOption(it, []int{}, stepOpt))
+		partial = true
+	case "iterator.FoldError":
+		failed = iterator.FoldError(it, stepErr) != nil
+	case "iterator.FoldRight":
+		stop = never
+		acc = iterator.FoldRight(it, []int{}, right).Get()
+	case "list.Fold":
+		stop = never
+		acc = list.Fold(iterator.ToList(it), []int{}, plain)
+	case "list.FoldLeft":
+		stop = never
+		acc = list.FoldLeft(iterator.ToList(it), []int{}, plain)
+	case "list.FoldTry":
+		fromTry(list.FoldTry(iterator.ToList(it), []int{}, stepTry))
+		partial = true
+	case "list.FoldOption":
+		fromOpt(list.FoldOption(iterator.ToList(it), []int{}, stepOpt))
+		partial = true
+	case "list.FoldError":
+		failed = list.FoldError(iterator.ToList(it), stepErr) != nil
+	case "list.FoldRight":
+		stop = never
+		acc = list.FoldRight(iterator.ToList(it), []int{}, right).Get()
+	case "list.FoldMap":
+		stop = never
+		acc = list.FoldMap(iterator.ToList(it), sliceMonoid, one)
+	case "seq.Fold":
+		stop = never
+		acc = seq.Fold(it.ToSeq(), []int{}, plain)
+	case "seq.FoldTry":
+		fromTry(seq.FoldTry(it.ToSeq(), []int{}, stepTry))
+		partial = true
+	case "seq.FoldOption":
+		fromOpt(seq.FoldOption(it.ToSeq(), []int{}, stepOpt))
+		partial = true
+	case "seq.FoldError":
+		failed = seq.FoldError(it.ToSeq(), stepErr) != nil
+	case "seq.FoldRight":
+		stop = never
+		acc = seq.FoldRight(it.ToSeq(), []int{}, right).Get()
+	case "seq.FoldMap":
+		stop = never
+		acc = seq.FoldMap(it.ToSeq(), sliceMonoid, one)
+	default:
+		panic("fold op " + op)
+	}
+	if acc == nil {
+		acc = []int{}
+	}
+	out.Ev("FoldM", "op", op, "stop", stop, "out", acc, "failed", failed, "partial", partial && failed)
+}
 
 func genCases(g IterGen) []IterCase {
 	if g.Cases != nil {
